@@ -12,25 +12,38 @@
 #include <stdlib.h>
 #include <errno.h>
 
+static tree_node_t *follow_link(fstree_t *fs, tree_node_t *node)
+{
+	if (node->flags & FLAG_LINK_RESOVED)
+		return node->data.target_node;
+
+	return fstree_get_node_by_path(fs, fs->root, node->data.target,
+				       false, false);
+}
+
 static int resolve_link(fstree_t *fs, tree_node_t *node)
 {
-	tree_node_t *start = node;
+	tree_node_t *start = node, *slow = node;
+	size_t hops = 0;
 
 	for (;;) {
 		if (!S_ISLNK(node->mode) || !(node->flags & FLAG_LINK_IS_HARD))
 			break;
 
-		if (node->flags & FLAG_LINK_RESOVED) {
-			node = node->data.target_node;
-		} else {
-			node = fstree_get_node_by_path(fs, fs->root,
-						       node->data.target,
-						       false, false);
-			if (node == NULL)
-				return -1;
-		}
+		node = follow_link(fs, node);
+		if (node == NULL)
+			return -1;
 
-		if (node == start) {
+		/*
+		 * A second pointer follows the same chain at half the speed.
+		 * It catches loops that do not lead back to the start node
+		 * (e.g. a -> b, b -> b), which would otherwise be walked
+		 * forever.
+		 */
+		if ((++hops % 2) == 0)
+			slow = follow_link(fs, slow);
+
+		if (node == start || node == slow) {
 			errno = EMLINK;
 			return -1;
 		}
